@@ -430,6 +430,7 @@ impl Container for DynamicContainer {
 
         // Look up key in index (KMT)
         let ekey = EncodingKey::from_bytes(*key);
+        vp_sched!("dyn.read.index");
         let entry = {
             let index = self.index.read();
             index.lookup(&ekey).ok_or_else(|| {
@@ -447,6 +448,7 @@ impl Container for DynamicContainer {
         // archive file on disk is shorter than entry_size, `read_raw` (called
         // by `read_content`) returns an Archive error which we convert to
         // TruncatedRead.
+        vp_sched!("dyn.read.archive");
         let data = {
             let archive = self.archive.read();
             match archive.read_content(archive_id, archive_offset, entry_size) {
@@ -479,6 +481,7 @@ impl Container for DynamicContainer {
         };
 
         // Touch LRU cache to keep this key from eviction.
+        vp_sched!("dyn.read.lru");
         if let Some(ref lru) = self.lru {
             let ekey_9: [u8; 9] = key[..9].try_into().unwrap_or([0; 9]);
             lru.write().touch(&ekey_9);
@@ -507,6 +510,7 @@ impl Container for DynamicContainer {
 
         // Write to archive (ArchiveManager handles BLTE encoding,
         // local header, and archive selection)
+        vp_sched!("dyn.write.archive");
         let (archive_id, offset, total_size, encoding_key) = {
             let mut archive = self.archive.write();
             archive.write_content(data, false)?
@@ -523,6 +527,7 @@ impl Container for DynamicContainer {
         // Update index (KMT) with the new entry.
         // The key stored in the index is the first 9 bytes of the
         // encoding key (MD5 of BLTE data), not the content key passed in.
+        vp_sched!("dyn.write.index");
         {
             let mut index = self.index.write();
             index.add_entry(
@@ -534,12 +539,14 @@ impl Container for DynamicContainer {
         }
 
         // Touch LRU cache to keep this key from eviction.
+        vp_sched!("dyn.write.lru");
         if let Some(ref lru) = self.lru {
             let ekey_9: [u8; 9] = encoding_key[..9].try_into().unwrap_or([0; 9]);
             lru.write().touch(&ekey_9);
         }
 
         // Persist the updated index to disk
+        vp_sched!("dyn.write.save");
         {
             let index = self.index.read();
             index.save_all()?;
@@ -558,11 +565,13 @@ impl Container for DynamicContainer {
         // CASC `casc::Dynamic::Remove`
         // delegates to `DeleteKeys(arg1, arg2, 1)`.
         let ekey = EncodingKey::from_bytes(*key);
+        vp_sched!("dyn.remove.index");
         let removed = {
             let mut index = self.index.write();
             index.remove_entry(&ekey)
         };
 
+        vp_sched!("dyn.remove.save");
         if removed {
             debug!("removed key {} from index", hex::encode(&key[..9]));
             // Persist the updated index
@@ -574,6 +583,7 @@ impl Container for DynamicContainer {
     }
 
     async fn query(&self, key: &[u8; 16]) -> Result<bool> {
+        vp_sched!("dyn.query");
         let ekey = EncodingKey::from_bytes(*key);
         let index = self.index.read();
         Ok(index.has_entry(&ekey))
